@@ -70,6 +70,7 @@ type program struct {
 	fseq  []*form // deterministic order
 
 	shareFonts bool
+	textQ      bool // q/Q may occur inside text objects (outside ISO 32000-1 Figure 9; see ref.go saved)
 }
 
 // ---- alphabet ---------------------------------------------------------------------------
